@@ -188,6 +188,14 @@ class FakeSocket(socket.socket):
     def shutdown(self, how):
         pass
 
+    pending_so_error = 0
+
+    def getsockopt(self, level, optname, *a):
+        if level == socket.SOL_SOCKET and optname == socket.SO_ERROR:
+            err, self.pending_so_error = self.pending_so_error, 0  # reading SO_ERROR resets it, like the kernel
+            return err
+        return socket.socket.getsockopt(self, level, optname, *a)
+
     # -- writes --------------------------------------------------------------------------------
     def _accept(self, data):
         env = self.env
